@@ -23,7 +23,7 @@ RULE = ('kernel cases: seeded inputs cycling through the 24 cells (object finite
         'named distribution for counts 0..40 (rings 0..8). system: seeded lenses of 1-12 surfaces forced into each cell '
         '(valid or not; six rejection rules), each reached through one of four routes (fresh Optic / ready-made Surface objects / an '
         'Optic reused after reset() of a different lens / to_dict -> from_dict), with the configuration taken from the entered '
-        'prescription and never read back; a fixed corpus of 25 prescription x route entries replayed whatever the seed; three classes of field lists (0..+max on y; largest magnitude negative; x and y '
+        'prescription and never read back; a fixed corpus of 30 prescription x route entries (incl. mirror-first systems with vertices left of surface 1) replayed whatever the seed; three classes of field lists (0..+max on y; largest magnitude negative; x and y '
         'extremes on different field points), off-axis Hx, fields with vx != vy, shuffled field lists with vignetting, curved object surfaces, object-space index != 1; '
         'the prescriptions of the three repaired findings replayed on every run; '
         'non-trivial = a launched ray with finite record in a distinct (lens, ray)')
@@ -684,10 +684,24 @@ INFINITE_VIG = {
     'fields': [[0.0, 0.0, 0.0, 0.0], [7.0, 0.0, 0.05, 0.3], [14.0, 0.0, 0.35, 0.1]],
     'wavelengths': [[0.55, True]], 'telecentric': False}
 
+MIRROR_FIRST = {
+    'object_thickness': float('inf'),
+    'surfaces': [{'type': 'standard', 'radius': -400.0, 'conic': -1.0, 'thickness': -150.0, 'material': 'mirror', 'is_stop': True},
+                 {'type': 'standard', 'radius': float('inf'), 'thickness': -45.0, 'material': 'air'}],
+    'aperture': ['EPD', 40.0], 'field_type': 'angle', 'fields': [[0.0, 0.0, 0.0, 0.0], [0.5, 0.0, 0.0, 0.0], [1.0, 0.0, 0.0, 0.0]],
+    'wavelengths': [[0.55, True]], 'telecentric': False}
+CASSEGRAIN_LIKE = {
+    'object_thickness': float('inf'),
+    'surfaces': [{'type': 'standard', 'radius': -300.0, 'conic': -1.0, 'thickness': -100.0, 'material': 'mirror', 'is_stop': True},
+                 {'type': 'standard', 'radius': -120.0, 'conic': -2.5, 'thickness': 130.0, 'material': 'mirror'}],
+    'aperture': ['imageFNO', 8.0], 'field_type': 'angle', 'fields': [[0.0, 0.0, 0.0, 0.0], [0.4, 0.0, 0.0, 0.0]],
+    'wavelengths': [[0.6563, True]], 'telecentric': False}
+
 # fixed corpus: (label, prescription, route); the same rays are launched through every entry on every run, whatever the
 # seed.  Classes: the three repaired findings; telecentric lenses (valid and to-be-rejected) through every route; an
 # interior-stop finite lens and a rear-stop infinite lens with fields of vx != vy through every route (state that
-# survives reset(), alternative constructor, ready-made surfaces); largest field negative.
+# survives reset(), alternative constructor, ready-made surfaces); largest field negative; mirror systems whose first
+# surface is the mirror (surface vertices to the LEFT of surface 1).
 REGRESSION_CASES = [
     ('infinite-object-launched-backwards', BACKWARDS_REPLAY, 'direct'),
     ('telecentric-na-ignores-object-index', _with(TELE_NA_REPLAY, object_material=['ideal', 1.33, 0.0]), 'direct'),
@@ -703,6 +717,8 @@ CORPUS = REGRESSION_CASES + (
     [('infinite-vx-ne-vy/' + r, INFINITE_VIG, r) for r in ('direct', 'handbuilt', 'reuse', 'roundtrip')] +
     [('largest-field-negative/' + r, _with(INFINITE_VIG, fields=[[0.0, 0.0, 0.0, 0.0], [-14.0, 0.0, 0.0, 0.0], [-20.0, 0.0, 0.0, 0.0]]), r)
      for r in ('direct', 'roundtrip')] +
+    [('mirror-is-first-surface/' + r, MIRROR_FIRST, r) for r in ('direct', 'reuse', 'roundtrip')] +
+    [('two-mirrors-vertex-left-of-first-surface/' + r, CASSEGRAIN_LIKE, r) for r in ('direct', 'handbuilt')] +
     [('largest-height-negative/reuse', _with(FINITE_HEIGHT, aperture=['EPD', 9.0],
                                               fields=[[-6.0, 0.0, 0.0, 0.0], [0.0, 0.0, 0.0, 0.0], [3.0, 0.0, 0.0, 0.0]]), 'reuse')]
 )
